@@ -56,7 +56,114 @@ def size_terms(p):
     return out
 
 
+def _classify(sym):
+    """role of an i32 symbol in a validation test: ('count',) for a declared count (a value read, or a plain field holding one),
+    ('offset', 'start'|'end') for an element of the part-offset array at the cursor / at the cursor + 1"""
+    if not isinstance(sym, tuple) or not sym:
+        return None
+    st = absint.term_str(sym)
+    idx = [x for x in absint.subterms(sym) if isinstance(x, tuple) and x and (x[0] in ('elemref_at', 'at_index', 'index') or
+                                                                           (x[0] == 'i' and len(x) == 2))]
+    if idx or '[' in st:
+        nxt = any(isinstance(x, tuple) and x and x[0] == 'bin' and x[1] == 'Add' and ('int', 1) in (x[2], x[3]) for x in absint.subterms(sym))
+        return ('offset', 'end' if nxt else 'start')
+    if sym[0] == 'ret' or (sym[0] == 'proj' and len(sym[2]) == 1) or (sym[0] == 'load' and len(sym[1][1]) == 1):
+        return ('count',)
+    return None
+
+
+def accept_rule(ctx, F):
+    """C03.accept: a validation error is returned only for an invalid record.  The tests compare declared counts and part offsets
+    with each other and with 0 only, so a path is decided over the finite set of orderings of those values: no assignment may
+    satisfy both the path's atoms and validity (counts >= 0, 0 <= start <= end <= NumPoints)."""
+    import itertools
+    ctx.rule("C03.accept", "validation errors of the multi-part readers are returned only for invalid records: on every path that "
+                           "returns a constructed error, the comparisons taken contradict `counts >= 0 and 0 <= start <= end <= NumPoints` "
+                           "(decided over the orderings of the compared values)", floor=4)
+    fns = [g for g in F.identity_fns() if g.get("krate") == F.crate and g["def"].startswith("record::io::MultiPartShapeReader")]
+    for imp in F.trait_impls("record::ConcreteReadableShape"):
+        for m in imp["methods"]:
+            g = F.fns.get(m["key"])
+            if g is not None and g not in fns:
+                fns.append(g)
+    D = (-1, 0, 1, 2, 3)
+    n = 0
+    for f in fns:
+        try:
+            ps, _ = util.run_fn(F, f, summarise_pure=False)
+        except absint.Unanalysable:
+            continue
+        seen = set()
+        for p in ps:
+            if p.status != 'return' or not is_agg(p.ret, None, 'Err'):
+                continue
+            atoms = []
+            skip = False
+            for t, v in p.cons:
+                if t[0] == 'param' or (t[0] == 'bin' and t[1] not in absint.CMP_OPS):
+                    skip = True             # the error may stem from another kind of test (record size acceptance: C03.size)
+                if t[0] != 'bin' or t[1] not in absint.CMP_OPS:
+                    continue
+                if str(t[4]) in ('usize',):
+                    continue                      # cursor < len(..) of the in-memory array
+                ops = []
+                for x in (t[2], t[3]):
+                    if x[0] == 'int':
+                        ops.append(('k', x[1]))
+                    else:
+                        c = _classify(x)
+                        if c is None:
+                            skip = True
+                        ops.append(('s', x, c))
+                tv = (v != 0) if isinstance(v, int) else True
+                atoms.append((t[1], ops[0], ops[1], tv))
+            if skip or not atoms:
+                continue
+            key = repr(atoms)
+            if key in seen:
+                continue
+            seen.add(key)
+            syms = []
+            for a in atoms:
+                for o in a[1:3]:
+                    if o[0] == 's' and o[1] not in [y[0] for y in syms]:
+                        syms.append((o[1], o[2]))
+            witness = None
+            for vals in itertools.product(D, repeat=len(syms)):
+                env = {s_: val for (s_, _), val in zip(syms, vals)}
+                def ev(o):
+                    return o[1] if o[0] == 'k' else env[o[1]]
+                if not all({'Lt': ev(a) < ev(b), 'Le': ev(a) <= ev(b), 'Eq': ev(a) == ev(b), 'Ne': ev(a) != ev(b)}[op] == tv
+                           for op, a, b, tv in atoms):
+                    continue
+                # validity of this assignment
+                cnt = [env[s_] for s_, c in syms if c == ('count',)]
+                st_ = [env[s_] for s_, c in syms if c == ('offset', 'start')]
+                en_ = [env[s_] for s_, c in syms if c == ('offset', 'end')]
+                valid = all(c >= 0 for c in cnt) and all(x >= 0 for x in st_ + en_)
+                valid = valid and all(a <= b for a in st_ for b in en_)
+                hi = en_ if en_ else st_          # the last part ends at NumPoints
+                valid = valid and all(x <= c for x in hi for c in cnt) and all(x <= c for x in st_ for c in cnt)
+                if valid:
+                    witness = {absint.term_str(s_)[-40:]: val for (s_, _), val in zip(syms, vals)}
+                    break
+            n += 1
+            inst = "%s :: %s" % (f["def"].split("::")[-1], "; ".join("%s%s(%s, %s)" % ("" if tv else "not ", op,
+                                 a[1] if a[0] == 'k' else a[2][-1] if a[2][0] == 'offset' else 'count',
+                                 b[1] if b[0] == 'k' else b[2][-1] if b[2][0] == 'offset' else 'count') for op, a, b, tv in atoms))
+            ctx.ob("C03.accept", inst, witness is None,
+                   "the error is returned only when the record is invalid" if witness is None else
+                   "a VALID record is rejected, e.g. %s" % witness, site=ctx.site_of(F, f["def"]),
+                   key="C03.accept|%s|%s" % (f["def"].split("::")[-1], inst.split(" :: ")[1]))
+    return n
+
+
 def run(ctx):
+    _run(ctx)
+    accept_rule(ctx, ctx.facts("default"))
+
+
+def _run(ctx):
     F = ctx.facts("default")
     sp = util.spec()
     ctx.rule("C03.layout", "for each of the 13 types the reader's abstract layouts are exactly the ESRI layout with the optional M block "
